@@ -29,6 +29,7 @@ type Result struct {
 	Disagreements      []Disagreement `json:"disagreements"`
 	Violations         []Violation    `json:"violations"`
 	KnownHits          map[string]int `json:"known_hits"`
+	KnownExamples      map[string][]Violation `json:"known_examples,omitempty"`
 	Notes              []string       `json:"notes"`
 	WallS              float64        `json:"wall_s"`
 }
@@ -56,7 +57,14 @@ func (r *Result) sample(s any) {
 
 func (r *Result) violate(v Violation) {
 	if v.Known != "" {
-		r.KnownHits[v.Property+"|"+v.Known]++
+		k := v.Property + "|" + v.Known
+		r.KnownHits[k]++
+		if r.KnownExamples == nil {
+			r.KnownExamples = map[string][]Violation{}
+		}
+		if len(r.KnownExamples[k]) < 3 {
+			r.KnownExamples[k] = append(r.KnownExamples[k], v)
+		}
 		return
 	}
 	if len(r.Violations) < 10 {
